@@ -125,13 +125,8 @@ func setupDigester(hash crypto.Hash, header []byte, hvals *peHeaderValues, secti
 	if doPageHash {
 		h.zeroPage = make([]byte, hvals.pageSize) // full page of zeroes, for padding
 		h.pageBuf = make([]byte, hvals.pageSize)  // scratch space
-		// make space for all the page hashes
-		pages := 2
-		for _, sh := range sections {
-			spage := (sh.SizeOfRawData + hvals.pageSize - 1) / hvals.pageSize
-			pages += int(spage)
-		}
-		h.pageHashes = make([]byte, 0, pages*(4+hash.Size()))
+		// page hashes are appended as sections are read; the section sizes
+		// in the header are not trusted for sizing the buffer up front
 		// the first page is the headers padded out to a full page with the
 		// signature bits snipped out in the same way as for the regular
 		// imprint. the padding is done based on the full size of the
